@@ -112,7 +112,7 @@ def _mk(N, Ms, tier):
                          UK + "UnscentedKalmanFilter._calcMeasurementSigmaPoints", UK + "UnscentedKalmanFilter.calcMeasurementMean"],
                     mode="R", tier=tier, bounded=bounded, assumes=LIN, timeout_ms=60000,
                     note=("sigma points redrawn before the update, from ANY predicted mean and ANY positive-definite predicted covariance (given by its Cholesky factor) and "
-                          "whatever stale residual matrices the filter still holds: innovation covariance H P- H^T + R, cross covariance P- H^T, gain K S = cross, "
+                          "whatever stale residuals, noise matrix, gain, innovation and angular flags the filter still holds from an earlier update: innovation covariance H P- H^T + R, cross covariance P- H^T, gain K S = cross, "
                           "posterior mean x- + K (y - H x-): the Kalman update"
                           if resample else
                           "documented no-redraw variant (state produced by the real predict step): the propagated sigma points are reused, so S = H F P F^T H^T + R and cross = F P F^T H^T (Q enters only the predicted covariance)") +
@@ -135,6 +135,18 @@ def _mk(N, Ms, tier):
             else:
                 f.predict(60.0)
                 prior, mean = np.dot(F, np.dot(P, F.T)), np.dot(F, e["x"])
+            # multi-step sequences: whatever the previous update left behind (same stacked dimension, so no shape test can tell) must not matter
+            Mt, ns_ = sum(Ms), 2 * N + 1
+            from resonaate.physics.measurements import IsAngle
+            f.r_matrix = vc.mat("stale_R", Mt, Mt, -5, 5)
+            f.sigma_y_res = vc.mat("stale_yres", Mt, ns_, -100, 100)
+            f.innov_cvr = vc.mat("stale_S", Mt, Mt, -5, 5)
+            f.cross_cvr = vc.mat("stale_C", N, Mt, -5, 5)
+            f.kalman_gain = vc.mat("stale_K", N, Mt, -5, 5)
+            f.mean_pred_y = vc.vec("stale_my", Mt, -100, 100)
+            f.true_y = vc.vec("stale_ty", Mt, -100, 100)
+            f.innovation = vc.vec("stale_in", Mt, -100, 100)
+            f.is_angular = np.array([IsAngle.ANGLE_0_2PI] * Mt)
             f.update(e["obs"])
             S = np.dot(H, np.dot(prior, H.T)) + R
             C = np.dot(prior, H.T)
